@@ -432,6 +432,7 @@ func runC16(ctx *h.Ctx) int {
 		k.Nontrivial(nMarkers, pr.Lines, len(rp.Items))
 		k.Sample("markers", map[string]interface{}{"source": pr.Src, "path": path})
 	})
+	rejectGuard(ctx, 0.35)
 	return ctx.Finish(
 		"whole files with every construct kind under scrambled layouts (constructs spread over lines, comments/blank lines anywhere, raw keyword and back-tick on the same or different lines, CRLF), unique names per construct, input path with/without back-slashes or empty; compiled with -lm=false, -lm with path, -lm without path. Oracle: (a) -lm output minus marker lines == -lm=false output; (b) every marker names the escaped path and a line in 1..#lines; (c) the construct on the following line (command, label, flag/var/defeated/AutoVar operand, switch operand, case, mart item, movement step and headers, raw line, text block, map-script entry, table row), identified by its unique name or its position in its block, was written on a source line range containing that number; (d) no markers without a path. distinct = (number of markers, source lines, items)",
 		ctx.N(500, 5000),
